@@ -39,6 +39,8 @@ def plan(tier, seed):
     cases = []
     for b in range(n):
         cases.append({"kind": "gen", "seed": seed, "batch": b, "n": 3})
+    for k in range(10 if tier == "quick" else 150):
+        cases.append({"kind": "twin", "seed": seed, "k": k})
     for k in range(8 if tier == "quick" else 120):
         cases.append({"kind": "shipped", "seed": seed, "k": k, "gene": SHIPPED[k % len(SHIPPED)]})
     return cases
@@ -64,6 +66,89 @@ class CnCapture:
 
     def __exit__(self, *a):
         self.mod.solve_cn_model = self.orig
+
+
+class RealignerRecorder:
+    """Proxy around aldy.indelpost.VariantAlignment (looked up at call time by _realign_indels): records, per
+    catalogued indel handed to the realigner, the realigner's own allele counts and supporting read names."""
+
+    def __init__(self):
+        import aldy.indelpost as ip
+
+        self.ip = ip
+        self.orig = ip.VariantAlignment
+        self.records = []
+        outer = self
+
+        class VA:
+            def __init__(self, v, sam, **kw):
+                self._rec = {"pos": v.pos, "ref": v.ref, "alt": v.alt}
+                outer.records.append(self._rec)
+                self._i = outer.orig(v, sam, **kw)
+
+            def phase(self, *a, **k):
+                r = self._i.phase(*a, **k)
+                self._rec["phased"] = (len(r.ref), len(r.alt))
+                return r
+
+            def count_alleles(self, *a, **k):
+                c = self._i.count_alleles(*a, **k)
+                self._rec["count"] = list(c)
+                return c
+
+            def fetch_reads(self, how="target"):
+                rs = self._i.fetch_reads(how)
+                if how == "target":
+                    self._rec["target"] = {r.query_name for r in rs}
+                return rs
+
+            def __getattr__(self, name):
+                return getattr(self._i, name)
+
+        self.VA = VA
+
+    def __enter__(self):
+        self.ip.VariantAlignment = self.VA
+        return self
+
+    def __exit__(self, *a):
+        self.ip.VariantAlignment = self.orig
+
+    def by_indel(self):
+        """{(pos, op): record} in aldy's keys (insertion after base pos, deletion starting at pos)."""
+        out = {}
+        for r in self.records:
+            ref, alt, p = r["ref"], r["alt"], r["pos"] - 1
+            if len(ref) == 1 and len(alt) > 1 and alt[0] == ref:
+                key = (p, "ins" + alt[1:])
+            elif len(alt) == 1 and len(ref) > 1 and ref[0] == alt:
+                key = (p + 1, "del" + ref[1:])
+            else:
+                key = (p, f"del{ref}ins{alt}")
+            out[key] = r
+        return out
+
+
+def check_indel_bookkeeping(res, sample, recorder, desc):
+    """The support table equals the realigner's own counts; the only documented correction: a shorter insertion at
+    the *same* site as a longer, already supported one that starts with it does not count the reads already used."""
+    recs = recorder.by_indel()
+    prev = None
+    for (pos, op) in sorted(sample._indel_sites, key=lambda x: (x[0], -len(x[1]))):
+        r = recs.get((pos, op))
+        if not r or "count" not in r:
+            continue
+        off, on = r["count"]
+        if prev and prev[0] == pos and op.startswith("ins") and prev[1].startswith(op):
+            x = len(r.get("target", set()) & prev[2])
+            off, on = off + x, on - x
+        got = list(sample._indel_sites[pos, op])
+        res.check("indel_table_is_realigner_count", got == [off, on],
+                  "the indel support table differs from the realigner's counts for that indel",
+                  indel=f"{pos}.{op}", table=got, realigner=[off, on], **desc)
+        if got[1]:
+            prev = (pos, op, r.get("target", set()))
+    return recs
 
 
 def planted_variants(g, copies):
@@ -133,7 +218,7 @@ def _check_sample(res, db, copies, rl, depth, desc, params=None, truth=False):
 
     aldy.sam.Sample._make_coverage = mc
     try:
-        with CnCapture() as cap:
+        with CnCapture() as cap, RealignerRecorder() as rr:
             try:
                 out = _sim.genotype(db, bam, prof_bam, None, **(params or {}))
                 err = None
@@ -141,6 +226,7 @@ def _check_sample(res, db, copies, rl, depth, desc, params=None, truth=False):
                 out, err = None, e
     finally:
         aldy.sam.Sample._make_coverage = orig_mc
+    raw = check_indel_bookkeeping(res, samples[-1], rr, desc) if samples else {}
     # indelpost treats catalogued indels with another indel of the same haplotype close by as one
     # complex event and aldy then skips them ("subsumed indel"): zero support for a planted indel
     subsumed = []
@@ -175,6 +261,8 @@ def _check_sample(res, db, copies, rl, depth, desc, params=None, truth=False):
                     if op in (0, 2, 7, 8):
                         c += n
             on = sites.get((m.pos, m.op), [0, 0])[1]
+            if "count" in raw.get((m.pos, m.op), {}):
+                on = raw[m.pos, m.op]["count"][1]  # the realigner's own count, before aldy's bookkeeping
             # (zero support is a different thing - the indel was skipped, not miscounted)
             if str(m) not in subsumed and on > 0 and abs(on - truth) > max(3, 0.2 * truth):
                 miscount.append({"indel": str(m), "reads_carrying_it": truth, "support_reported_by_realigner": on})
@@ -284,6 +372,36 @@ def run(case):
                 fps.append(util.fingerprint(desc))
                 if res.sample is None and case["batch"] < 3:
                     res.sample = desc
+    elif case["kind"] == "twin":
+        # an allele with the same inserted bases at two sites 18-45 bases apart (reads span both), heterozygous
+        # with a reference copy or homozygous
+        rng = util.rng_for("c01t", case["seed"], case["k"])
+        genome = rng.choice(["hg19", "hg38"])
+        found = None
+        for dbseed in rng.sample(range(60), 60):
+            db = _sim.gen_db(dbseed, genome, pseudogene=None, want_cn=False, hostile=1.0,
+                             kinds=["snp", "snp", "ins", "ins", "del"])
+            for an, a in db.gene.alleles.items():
+                ins = collections.Counter(m.op for m in a.func_muts if m.op.startswith("ins"))
+                if a.cn_config == "1" and any(v >= 2 for v in ins.values()):
+                    found = (db, an)
+                    break
+            if found:
+                break
+        if not found:
+            res.count("skipped_no_twin_insertion_database")
+        else:
+            db, an = found
+            twin = db.first_minor(an)
+            copies = [twin, twin] if rng.random() < 0.4 else [twin, db.reference_copy()]
+            rl, depth = rng.choice([100, 150, 250]), rng.choice([20, 30])
+            desc = {"db": db.label, "strand": db.gene.strand, "planted": [list(c) for c in copies],
+                    "read_length": rl, "depth": depth, "twin_insertion_allele": an}
+            decided = check_sample(res, db, copies, rl, depth, desc)
+            res.count("samples")
+            res.count("twin_insertion_samples")
+            if decided:
+                fps.append(util.fingerprint(desc))
     else:
         rng = util.rng_for("c01s", case["seed"], case["k"])
         genome = rng.choice(["hg19", "hg38"])
